@@ -19,7 +19,7 @@ CHECKS = {
 CHECKS.update({
     "C12": dict(
         technique="Lean 4 proof (induction over evaluation histories) on a model of the trackers and search loops + differential correspondence (all histories over 3 values up to length 6)",
-        text="Theorems (Props/C12.lean, 9) prove for ALL histories: the tracked best has the maximum aggregate at every prefix, the is_best flag holds iff first or strictly better than all earlier, the multi-objective list only holds individuals attaining the best aggregate, and every search returns the tracker's best; the full 'at least as good as every individual evaluated' statement is proved under the hypothesis that every evaluated individual reaches the tracker (C12_best_of_evaluated_partial) and refuted for GP steps that evaluate internally (C12_gp_step_evaluation_witness, open finding). Tied to the code by exhaustive small histories and real searches.",
+        text="Theorems (Props/C12.lean, 11) prove for ALL histories: the tracked best has the maximum aggregate at every prefix, the is_best flag holds iff first or strictly better than all earlier, the multi-objective list only holds individuals attaining the best aggregate, and every search returns the tracker's best -- also on a tracker that earlier searches or evaluations have already used (C12_search_returns_best_warm: best of everything the tracker has seen); the full 'at least as good as every individual evaluated' statement is proved under the hypothesis that every evaluated individual reaches the tracker (C12_best_of_evaluated_partial) and refuted for GP steps that evaluate internally (C12_gp_step_evaluation_witness, open finding). Tied to the code by exhaustive small histories and real searches.",
         note="Trusted: Lean kernel + standard axioms; model validated on explored inputs only; fitness values are integers of an arbitrary linear order (NaN outside the model).",
         design="5/C12",
     ),
@@ -115,8 +115,8 @@ CHECKS.update({
 CHECKS.update({
     "C08": dict(
         technique="Lean 4 proof that every iteration over a symbol set in the repaired code goes through a canonical sort whose result is invariant under permutations of the set (SGE genotype creation, stack symbol choice), and that the grammar analysis is the unique fixpoint whatever the visiting order + in-process permutation of set iteration orders and fresh interpreters with different PYTHONHASHSEED / allocation padding / import order",
-        text="Theorems (Props/C08.lean, 14): sorted(set, key) is a sorted permutation and is the same list for every enumeration of the set (injective keys), hence repaired SGE genotype creation and the stack machine's symbol choice do not depend on set order; machine-checked witnesses that the pinned versions did; the distance analysis equals any solution of its equations (order of the Python loop irrelevant, from C05); a model run is a function of configuration and stream. Implementation side: every algorithm x representation battery must give the same sequence of evaluated programs, best program and fitness in this process (twice), under permuted set orders, and in fresh interpreters with different hash seeds, padding and import orders.",
-        note="PARTIAL by nature: CPython's address-dependent hashing and hidden interpreter state cannot be exhibited by a model; they are over-approximated by explicit permutations and sampled by fresh interpreters. Distinct symbols are assumed to have distinct str(). Trusted: Lean kernel + standard axioms.",
+        text="Theorems (Props/C08.lean, 17): sorted(set, key) is a sorted permutation and is the same list for every enumeration of the set (injective keys), hence repaired SGE genotype creation and the stack machine's symbol choice do not depend on set order; machine-checked witnesses that the pinned versions did (unsorted iteration; symbols that print alike under a stable sort, C08_stack_twins_witness) and the repaired tie-break by first mention (C08_stack_pick_ties_broken); the distance analysis equals any solution of its equations (order of the Python loop irrelevant, from C05); a model run is a function of configuration and stream. Implementation side: every algorithm x representation battery must give the same sequence of evaluated programs, best program and fitness in this process (twice), under permuted set orders, and in fresh interpreters with different hash seeds, padding and import orders.",
+        note="PARTIAL by nature: CPython's address-dependent hashing and hidden interpreter state cannot be exhibited by a model; they are over-approximated by explicit permutations and sampled by fresh interpreters. Distinct symbols are ordered by (str(), rank of first mention in a deterministic walk); the ranks are assumed pairwise distinct. Trusted: Lean kernel + standard axioms.",
         design="5/C08",
     ),
 })
